@@ -2015,7 +2015,7 @@ namespace ST
             } else if (static_cast<size_t>(start) > max) {
                 return string();
             }
-            if (start + count > max)
+            if (count > max - start)
                 count = max - start;
 
             if (start == 0 && count == max)
